@@ -9,6 +9,8 @@ Streams
   C09.seq       ONE live report saved, modified in place (finished and already saved tests included) and saved again, several times,
                 with either backend, any options, the same or another path, the same or a fresh backend instance; every load must
                 give the report as it was at the last save to that path (model `Store.run`)
+  C09.dir       a report saved INTO a directory (any name, sibling directories holding older reports, other content; $TMPDIR and the
+                report directory on the same or on another file system) and loaded back THROUGH the directory (model `DirStore`)
   C09.etnorm    the XML text layer against `Serial.etNorm`
   C09.jsontext  `json.dumps` against `JsonFile.jsonEscape`, the codecs against `JsonFile.encodable`
   C09.time      the ISO-8601 millisecond text layer
@@ -33,7 +35,9 @@ TRUSTED_BASE = [
     "hand-written model LccModel/Model/Serial.lean of reporting/backends/json_.py and xml.py (serialize/unserialize pairs, field by field) "
     "and the accessors of report.py in LccModel/Model/Writer.lean (get_tests/get_suites: stable sort by rank); Model/JsonFile.lean "
     "(JsonBackend options, JavaScript prefix written / stripped at offset 0, ensure_ascii escaping, codec encodability); Model/Store.lean "
-    "(a live report saved, modified and saved again: files hold serialised values, loads read them back)",
+    "(a live report saved, modified and saved again: files hold serialised values, loads read them back); Model/DirStore.lean (report "
+    "directories: lookup by name equality, entries in os.listdir order, first loadable entry, atomic save = temporary file beside the target + "
+    "os.replace that fails across devices)",
     "text layers are parameters of the model, each validated by its own stream and not proved: json.dumps/json.loads = identity on JSON "
     "values (C09.json), ET.tostring/ET.parse = etNorm (C09.etnorm), float→ms rounding and ISO-8601 text (C09.time)",
     "correspondence harness harness/props/c09.py + harness/gen/reports.py (generator, builder to real objects, canonical form)",
@@ -58,6 +62,7 @@ RULE = ("a generated report tree saved and loaded with the real backend (JSON: e
         "pretty_formatting, backend.save_report or report.save(), backend.load_report or the format-detecting load_report); non-trivial = "
         "at least 2 results and (a string from a non-plain class or an unfinished item); C09.seq: non-trivial = a successful save, then a "
         "modification of the live objects, then another successful save; C09.jsontext: a string json.dumps has to escape; "
+        "C09.dir: non-trivial = a successful save into a directory with siblings, or with a special name, or with $TMPDIR moved; "
         "distinct = hash of the case")
 EXPLANATION = ("Round-trip theorems for every report (JSON: unconditional on representable reports; XML: under the decidable guard "
                "xmlSafe, with refutation theorems for each D8 class) proved in Lean; the models are tied to json_.py / xml.py by saving "
@@ -65,7 +70,8 @@ EXPLANATION = ("Round-trip theorems for every report (JSON: unconditional on rep
                "the model's prediction; etNorm, the JSON escaping / encodability and the time text layer have their own differential "
                "streams; the JSON file layer (options, prefix) is a theorem over every option combination and every text, its hypotheses "
                "checked on every real file; sequences save / modify / save on the same live objects are a simulation theorem "
-               "(Store.run = Store.specRun) and the stream C09.seq.")
+               "(Store.run = Store.specRun) and the stream C09.seq; the directory form of load_report and the atomic save (directory names, "
+               "siblings, other content, place of the temporary directory) are theorems over Model/DirStore.lean and the stream C09.dir.")
 
 # Times are taken below 2**33 s (year 2242): up to there the spacing of doubles is below 1 µs, so `utcfromtimestamp`'s rounding to
 # microseconds recovers the exact millisecond before `isoformat(timespec="milliseconds")` TRUNCATES; beyond, a millisecond can be
